@@ -44,8 +44,15 @@
   set of live iterators, `edit_refines_multi_delete_nth`, `_find`, `_delete_host` (SMALL name) and
   `_remove` (`hostlist_remove` through one iterator is `hostlist_delete_nth` for all the OTHERS).
 
-  Not proved (correspondence + witnesses only): `hostlist_sort` (not in the editable model: judged against
-  the plain-list specification only); duplicate-freedom after `uniq` (false: F16-UNIQ).
+  `hostlist_sort` IS in the editable model now (Hostlist/EditSort.lean: `qsort`, reset of every iterator,
+  `hostlist_coalesce` with `hostrange_intersect` and the re-insertion of one-host records, `hostlist_collapse`;
+  three-way correspondence incl. the record dump).  Proved: the `qsort` step gives a permutation of the
+  records in which each compares ≤ its successor (`sort_qsort_sorted`, repaired comparator D26), and with the
+  reset it refines the plain list's `sort` for ANY number of live iterators (`edit_refines_multi_sort_reset`).
+  Not proved (correspondence + the spec's `sortOk` on every run): `hostlist_coalesce` / `hostlist_collapse`
+  keep the multiset of hosts and leave the (reset) iterators alone (`sort_coalesce_witness`: one instance);
+  duplicate-freedom after `uniq` (false: F16-UNIQ; true under a hypothesis that excludes mixed widths AND
+  digit-ending prefixes — not proved).
   A push while the iterator stands AT THE END: `edit_refines_push_inside` (one iterator; `Inside` = it stands
   on a record that exists — what the repaired F16-ENDPUSH keeps true when `hostlist_next` answers NULL,
   `edit_refines_next_inside`), `edit_refines_push_end_next` (the next `hostlist_next` hands out the first
@@ -61,6 +68,7 @@ import PdshVerif.Hostlist.EditMultiKeyed
 import PdshVerif.Hostlist.EditMultiUniq
 import PdshVerif.Hostlist.EditMultiRemove2
 import PdshVerif.Hostlist.EditPushEnd
+import PdshVerif.Hostlist.EditSortRefine
 
 namespace PdshVerif.C16
 open PdshVerif.Hostlist PdshVerif.Gen
@@ -439,6 +447,34 @@ example (cfg : Cfg) (hfs : cfg.fixIterSuffix = true) (hfix : cfg.fixRemoveDepth 
   subst hs5
   have h6 := edit_refines_multi_delete_nth cfg hfs hfix hID _ _ _ h5 0 (by decide)
   exact ⟨_, _, _, h6, rfl, rfl⟩
+
+/-! ### `hostlist_sort` -/
+/-- the `qsort` step of `hostlist_sort` / `hostlist_uniq` with the REPAIRED comparator (D26): a permutation
+    of the records in which every record compares ≤ its successor by `hostrange_cmp` (what the `assert` of
+    `hostrange_join` relies on) -/
+theorem sort_qsort_sorted (cfg : Cfg) (hfix : cfg.fixCmpTrunc = true) (rs : List RObj) :
+    (sortRanges cfg rs).Perm rs ∧ AdjOrdered cfg (sortRanges cfg rs) :=
+  sortRanges_sorted cfg hfix rs
+
+/-- `hostlist_sort` up to `hostlist_coalesce`, any number of live iterators: the same names with the same
+    multiplicities (admissible for the plain list's `sort`) and EVERY iterator starts over -/
+theorem edit_refines_multi_sort_reset (cfg : Cfg) (hfs : cfg.fixIterSuffix = true) (e : EL) (p : EditSpec.PL)
+    (fr : Nat → Bool) (h : RefM cfg e p fr) :
+    EditSpec.sort p (sortReset cfg e).hosts = some ⟨(sortReset cfg e).hosts, p.cur.map fun (k, _) => (k, 0)⟩ ∧
+      RefM cfg (sortReset cfg e) ⟨(sortReset cfg e).hosts, p.cur.map fun (k, _) => (k, 0)⟩ (fun _ => false) :=
+  sortReset_refinesM cfg hfs e p fr h
+
+/-- `a[5-9],a[1-6]` sorted: `hostlist_coalesce` cuts the overlap a5, a6 out and re-inserts it as one-host
+    records, `hostlist_collapse` joins what continues: `a[1-5]`, `a5`, `a[6]`.. — 11 hosts before and after -/
+theorem sort_coalesce_witness :
+    (match pushE Cfg.repaired EL.new "a[5-9],a[1-6]".toList with
+     | .ok (_, _, e) =>
+       (match sortE Cfg.repaired e with
+        | .ok e' => some (e'.nhosts, e'.hosts.map String.ofList)
+        | .error _ => none)
+     | .error _ => none) =
+      some (11, ["a1", "a2", "a3", "a4", "a5", "a5", "a6", "a6", "a7", "a8", "a9"]) := by
+  decide
 
 /-! ### iterator scenarios (the recorded defects and their repairs) -/
 /-- run `hostlist_next` n times on iterator k -/
